@@ -13,7 +13,7 @@ RULE = ("Cases: capacity 1..6, key type int/str/tuple, a history of <=40 operati
         "Distinct = distinct case JSON.")
 EXPLANATION = "exhaustive sub-domain: short histories over 3 keys for capacities 1 and 2 (see rule)"
 ASSUMPTIONS = ["keys are hashable ints/strings/tuples; values are ints"]
-FLOORS = {"eviction": (0.3, "hist>=10"), "view-op>=2": (0.3, "hist>=10")}
+FLOORS = {"eviction": (0.209, "hist>=10"), "view-op>=2": (0.24, "hist>=10")}
 SHARDS = {"quick": 12, "thorough": 14}
 
 
